@@ -6,7 +6,11 @@ WT=/tmp/wt/mut
 if [ ! -d $WT ]; then git -C /repo worktree add --detach $WT HEAD >/dev/null 2>&1; fi
 git -C $WT reset -q --hard; git -C $WT clean -fdqx
 git -C $WT checkout -q --detach $(git -C /repo rev-parse HEAD) || { echo "cannot move scratch worktree to /repo HEAD"; exit 3; }
-if ! git -C $WT apply "$P"; then echo "PATCH DOES NOT APPLY: $P"; exit 3; fi
+if ! git -C $WT apply "$P" 2>/dev/null; then
+  # same tolerance as the thorough tier's replay (patch with fuzz)
+  git -C $WT reset -q --hard
+  if ! patch -p1 -s --no-backup-if-mismatch -d $WT -i "$P" >/dev/null; then echo "PATCH DOES NOT APPLY: $P"; git -C $WT reset -q --hard; git -C $WT clean -fdqx; exit 3; fi
+fi
 /verif/bin/jpverif "${@:-rules}" --repo $WT
 rc=$?
 git -C $WT checkout -- . ; git -C $WT clean -fdq
